@@ -52,25 +52,19 @@ Definition pkcs7 (m : bytes) : bytes :=
 Section CBC.
 Variables E D : bytes -> bytes -> bytes.
 
-(* CBC over a message whose length is a multiple of 16 (fuel = number of blocks + 1) *)
-Fixpoint cbc_enc_fuel (fuel : nat) (k prev m : bytes) : bytes :=
-  match fuel with
-  | O => []
-  | S f => match m with
-           | [] => []
-           | _ => let c := E k (xor_bytes (firstn 16 m) prev) in c ++ cbc_enc_fuel f k c (skipn 16 m)
-           end
+(* CBC over a list of blocks, and over a message cut into 16-byte blocks *)
+Fixpoint cbc_enc_blocks (k prev : bytes) (bs : list bytes) : list bytes :=
+  match bs with
+  | [] => []
+  | b :: r => let c := E k (xor_bytes b prev) in c :: cbc_enc_blocks k c r
   end.
-Definition cbc_enc (k iv m : bytes) : bytes := cbc_enc_fuel (S (length m)) k iv m.
-Fixpoint cbc_dec_fuel (fuel : nat) (k prev c : bytes) : bytes :=
-  match fuel with
-  | O => []
-  | S f => match c with
-           | [] => []
-           | _ => xor_bytes (D k (firstn 16 c)) prev ++ cbc_dec_fuel f k (firstn 16 c) (skipn 16 c)
-           end
+Definition cbc_enc (k iv m : bytes) : bytes := concat (cbc_enc_blocks k iv (chunks 16 m)).
+Fixpoint cbc_dec_blocks (k prev : bytes) (cs : list bytes) : list bytes :=
+  match cs with
+  | [] => []
+  | c :: r => xor_bytes (D k c) prev :: cbc_dec_blocks k c r
   end.
-Definition cbc_dec (k iv c : bytes) : bytes := cbc_dec_fuel (S (length c)) k iv c.
+Definition cbc_dec (k iv c : bytes) : bytes := concat (cbc_dec_blocks k iv (chunks 16 c)).
 
 (* ---- writer ------------------------------------------------------------------------------ *)
 Record cbcw := { w_key : bytes; w_prev : bytes (* cbc::Encryptor's iv *); w_buf : bytes (* carry, < 16 *) }.
